@@ -85,12 +85,13 @@ Proof.
     rewrite IHh. reflexivity.
 Qed.
 
-Lemma drain_calls_lr_irrelevant lr e t : forall rest loc w evs,
-  drain_calls false lr e t loc rest w evs = drain_calls false false e t loc rest w evs.
+Lemma drain_calls_lr_irrelevant lr pb e t : forall rest loc w evs,
+  drain_calls false lr pb e t loc rest w evs = drain_calls false false pb e t loc rest w evs.
 Proof.
   induction rest as [|o r IH]; intros loc w evs; cbn [drain_calls]; [reflexivity|].
   destruct (api_prog e loc o) as [p|]; [|apply IH]. rewrite adv_lr_irrelevant.
   destruct (adv false false t p (clear_trace w)) as [out w'|p' w']; [|reflexivity].
+  destruct pb; [reflexivity|].
   destruct (api_fin e loc o out) as [lc' rc]. destruct (stops rc); [reflexivity|]. apply IH.
 Qed.
 
@@ -105,6 +106,8 @@ Let wpol := bs_wp b.
 Variable blk : apiop -> list hold -> lock -> Prop.
 (* the scheduling mode "a thread pauses after every release" (Conc.turn_g) *)
 Variable yr : bool.
+(* ... and "a thread whose call has run to its end pauses before the call returns" (Conc.drain_calls / settle) *)
+Variable pb : bool.
 
 Hypothesis EO : env_ok blk e.
 
@@ -115,6 +118,11 @@ Definition QF_of (lc : tlocal) (o : apiop) : post := fun H K => TBfin (api_fin e
 Lemma out_post_fin lc o out H K :
   out_post (Qr_of lc o) (Qt_of lc o) (QF_of lc o) out H K -> TBfin (api_fin e lc o out) H K.
 Proof. destruct out; cbn [out_post]; unfold Qr_of, Qt_of, QF_of; tauto. Qed.
+
+Lemma wp_term_of bl lc o out H K :
+  out_post (Qr_of lc o) (Qt_of lc o) (QF_of lc o) out H K ->
+  Wp.wp bl (Op bpause_op (fun _ => term_of out)) H K (Qr_of lc o) (Qt_of lc o) (QF_of lc o).
+Proof. destruct out; cbn [out_post term_of Wp.wp bpause_op]; tauto. Qed.
 
 (* what is known of thread t *)
 Definition TI (t : tid) (th : thr) (w : world) : Prop :=
@@ -135,7 +143,7 @@ Proof. intros A B u Hu Ku N X. apply B; [exact N|]. apply A; assumption. Qed.
 
 Lemma drain_calls_inv t : forall rest loc w evs H K th' w' evs',
   agree t w H K -> clean w -> TB loc H K -> closed (gflag loc) rest = true ->
-  drain_calls false false e t loc rest w evs = (th', w', evs') ->
+  drain_calls false false pb e t loc rest w evs = (th', w', evs') ->
   TI t th' w' /\ clean w' /\ frame t w w'.
 Proof.
   induction rest as [|o r IH]; intros loc w evs H K th' w' evs' A C T CL E; cbn [drain_calls] in E.
@@ -150,7 +158,13 @@ Proof.
     { intros out w1 X u Hu Ku N Y. pose proof (adv_other t u p (clear_trace w) Hu Ku N (agree_clear _ _ _ _ Y)) as Z.
       destruct X as [X|[p1 X]]; rewrite X in Z; exact Z. }
     destruct (adv false false t p (clear_trace w)) as [out w1|p1 w1] eqn:EA.
-    + destruct D as [H1 [K1 [A1 [C1 P1]]]]. apply out_post_fin in P1.
+    + destruct D as [H1 [K1 [A1 [C1 P1]]]].
+      destruct pb.
+      { (* the call has run to its end: the thread pauses before it returns *)
+        inversion E; subst. split; [|split; [exact C1|apply (FR out w'); now left]].
+        exists H1, K1. split; [exact A1|]. cbn [th_over th_cur th_started th_loc th_rest].
+        split; [reflexivity|]. split; [exact CL|]. split; [exists bpause_op; reflexivity|]. now apply wp_term_of. }
+      apply out_post_fin in P1.
       pose proof (closed_step e loc o r out CL) as CL1.
       destruct (api_fin e loc o out) as [lc' rc] eqn:EF. cbn [fst snd] in *. destruct P1 as [T1 ST].
       destruct (stops rc) eqn:S.
@@ -164,10 +178,10 @@ Proof.
       split; [reflexivity|]. split; [exact CL|]. split; [now exists o1|exact W1].
 Qed.
 
-Lemma settle_inv t o loc rest p w evs H K th' w' evs' :
+Lemma settle_inv pbnow t o loc rest p w evs H K th' w' evs' :
   agree t w H K -> clean w -> closed (gflag loc) (o :: rest) = true ->
   Wp.wp (blk o) p H K (Qr_of loc o) (Qt_of loc o) (QF_of loc o) ->
-  settle false false e t o loc rest p w evs = (th', w', evs') ->
+  settle false false pbnow pb e t o loc rest p w evs = (th', w', evs') ->
   TI t th' w' /\ clean w' /\ frame t w w'.
 Proof.
   intros A C CL W E. unfold settle in E.
@@ -176,7 +190,12 @@ Proof.
   { intros out w1 X u Hu Ku N Y. pose proof (adv_other t u p (clear_trace w) Hu Ku N (agree_clear _ _ _ _ Y)) as Z.
     destruct X as [X|[p1 X]]; rewrite X in Z; exact Z. }
   destruct (adv false false t p (clear_trace w)) as [out w1|p1 w1] eqn:EA.
-  - destruct D as [H1 [K1 [A1 [C1 P1]]]]. apply out_post_fin in P1.
+  - destruct D as [H1 [K1 [A1 [C1 P1]]]].
+    destruct pbnow.
+    { inversion E; subst. split; [|split; [exact C1|apply (FR out w'); now left]].
+      exists H1, K1. split; [exact A1|]. cbn [th_over th_cur th_started th_loc th_rest].
+      split; [reflexivity|]. split; [exact CL|]. split; [exists bpause_op; reflexivity|]. now apply wp_term_of. }
+    apply out_post_fin in P1.
     pose proof (closed_step e loc o rest out CL) as CL1.
     destruct (api_fin e loc o out) as [lc' rc] eqn:EF. cbn [fst snd] in *. destruct P1 as [T1 ST].
     destruct (stops rc) eqn:S.
@@ -213,7 +232,7 @@ Proof.
   unfold get_thr in OV. rewrite nth_overflow in OV by exact L. discriminate.
 Qed.
 
-Lemma turn_inv n s t : GI n s -> enabled wpol s t = true -> GI n (turn_g false yr wpol e nl s t).
+Lemma turn_inv n s t : GI n s -> enabled wpol s t = true -> GI n (turn_g false yr pb wpol e nl s t).
 Proof.
   intros G EN. destruct (enabled_live s t EN) as [Lt OV]. rewrite (gi_len _ _ G) in Lt.
   unfold turn_g.
@@ -237,23 +256,25 @@ Proof.
       rewrite X in Z. exact Z. }
     destruct (step (pendw wpol (b_thr s) t) t p (clear_trace (b_w s))) as [v| | | |p' w1|w1] eqn:SP; try exact G.
     destruct D as [H1 [K1 [A1 [C1 W1]]]]. cbn [negb andb]. rewrite andb_true_r.
-    destruct (yr && match parked (get_thr (b_thr s) t) with Some op => is_rel_op op | None => false end).
+    destruct (yr && match parked (get_thr (b_thr s) t) with Some op => is_rel_op op | None => false end) eqn:YR.
     { (* the thread pauses after its release *)
       apply UPD; [|exact C1|apply (FS p' w1); reflexivity].
       exists H1, K1. split; [exact A1|]. cbn [th_over th_cur th_started th_loc th_rest].
       split; [reflexivity|]. split; [exact CL|]. split; [exists pause_op; reflexivity|]. cbn [Wp.wp pause_op]. exact W1. }
-    destruct (settle false (match parked (get_thr (b_thr s) t) with Some op => is_rel_op op | None => false end) e t o
-                     (th_loc (get_thr (b_thr s) t)) (th_rest (get_thr (b_thr s) t)) p' w1
+    set (lr0 := match parked (get_thr (b_thr s) t) with Some op => is_rel_op op | None => false end).
+    set (pbn := pb && negb (is_bpause (parked (get_thr (b_thr s) t)))).
+    destruct (settle false lr0 pbn pb e t o (th_loc (get_thr (b_thr s) t)) (th_rest (get_thr (b_thr s) t)) p' w1
                      (wrap (w_trace w1) ++ b_evs s)) as [[th' w'] evs'] eqn:SE.
     (* with ra = false the flag lr is not read *)
-    assert (SE' : settle false false e t o (th_loc (get_thr (b_thr s) t)) (th_rest (get_thr (b_thr s) t)) p' w1
+    assert (SE' : settle false false pbn pb e t o (th_loc (get_thr (b_thr s) t)) (th_rest (get_thr (b_thr s) t)) p' w1
                          (wrap (w_trace w1) ++ b_evs s) = (th', w', evs')).
-    { rewrite <- SE. unfold settle. rewrite (adv_lr_irrelevant (match parked (get_thr (b_thr s) t) with Some op => is_rel_op op | None => false end)). destruct (adv false false t p' (clear_trace w1)); [|reflexivity].
+    { rewrite <- SE. unfold settle. rewrite (adv_lr_irrelevant lr0). destruct (adv false false t p' (clear_trace w1)); [|reflexivity].
+      destruct pbn; [reflexivity|].
       destruct (api_fin e (th_loc (get_thr (b_thr s) t)) o out). destruct (stops r); [reflexivity|]. symmetry. apply drain_calls_lr_irrelevant. }
-    destruct (settle_inv t o _ _ p' w1 _ H1 K1 th' w' evs' A1 C1 CL W1 SE') as [I1 [I2 I3]].
+    destruct (settle_inv pbn t o _ _ p' w1 _ H1 K1 th' w' evs' A1 C1 CL W1 SE') as [I1 [I2 I3]].
     apply UPD; [exact I1|exact I2|]. eapply frame_trans; [apply (FS p' w1); reflexivity|exact I3].
   - destruct R as [ST [T CL]]. rewrite ST. cbn [negb].
-    destruct (drain_calls false false e t (th_loc (get_thr (b_thr s) t)) (th_rest (get_thr (b_thr s) t)) (b_w s) (b_evs s))
+    destruct (drain_calls false false pb e t (th_loc (get_thr (b_thr s) t)) (th_rest (get_thr (b_thr s) t)) (b_w s) (b_evs s))
       as [[th' w'] evs'] eqn:DE.
     destruct (drain_calls_inv t _ _ _ _ H K th' w' evs' A (gi_clean _ _ G) T CL DE) as [I1 [I2 I3]].
     apply UPD; assumption.
@@ -273,7 +294,7 @@ Proof. intros E1 E2 [A B C D]. constructor; rewrite ?E1, ?E2; assumption. Qed.
 Lemma enabled_ext s s' t : b_w s' = b_w s -> b_thr s' = b_thr s -> enabled wpol s' t = enabled wpol s t.
 Proof. intros E1 E2. unfold enabled. rewrite E1, E2. reflexivity. Qed.
 
-Lemma run_sched_inv n : forall sched s, GI n s -> GI n (fst (run_sched_g false yr wpol e nl s sched)).
+Lemma run_sched_inv n : forall sched s, GI n s -> GI n (fst (run_sched_g false yr pb wpol e nl s sched)).
 Proof.
   induction sched as [|t r IH]; intros s G; cbn [run_sched_g].
   - cbn [fst]. destruct (note_waits_same wpol nl (seq 0 (length (b_thr s))) s) as [A B]. eapply GI_ext; eassumption.
@@ -378,10 +399,10 @@ Proof.
 Qed.
 
 Theorem every_schedule_stable sched :
-  stable_state nl wpol rk (bound_of sc) (fst (run_sched_g false yr wpol e nl (binit b) sched)).
+  stable_state nl wpol rk (bound_of sc) (fst (run_sched_g false yr pb wpol e nl (binit b) sched)).
 Proof. eapply GI_stable. apply run_sched_inv. apply GI_init. Qed.
 
-Lemma reach_GI sched : GI (length (bs_progs b)) (fst (run_sched_g false yr wpol e nl (binit b) sched)).
+Lemma reach_GI sched : GI (length (bs_progs b)) (fst (run_sched_g false yr pb wpol e nl (binit b) sched)).
 Proof. apply run_sched_inv. apply GI_init. Qed.
 
 (* user data is read under a hold and written under the exclusive hold *)
@@ -432,47 +453,64 @@ Proof.
   - rewrite A2 in N. now apply cnt_memb.
 Qed.
 
+(* a thread whose call has run to its end (paused before it returns) holds what the call's result says: the locks of the
+   guard it returns, nothing if it returns none *)
+Lemma GI_boundary n s t o k out : GI n s ->
+  th_over (get_thr (b_thr s) t) = false ->
+  th_cur (get_thr (b_thr s) t) = Some (o, Op bpause_op k) -> k (VBool false) = term_of out ->
+  exists H K, agree t (b_w s) H K /\ out_post (Qr_of (th_loc (get_thr (b_thr s) t)) o) (Qt_of (th_loc (get_thr (b_thr s) t)) o)
+                                               (QF_of (th_loc (get_thr (b_thr s) t)) o) out H K.
+Proof.
+  intros G OV CU KE. destruct (Nat.lt_ge_cases t n) as [Lt|Ge].
+  2:{ unfold get_thr in CU. rewrite nth_overflow in CU by (rewrite (gi_len _ _ G); exact Ge). discriminate. }
+  destruct (gi_thr _ _ G t Lt) as [H [K [A R]]]. rewrite OV, CU in R. destruct R as [_ [_ [_ W]]].
+  exists H, K. split; [exact A|]. cbn [Wp.wp bpause_op] in W. rewrite KE in W.
+  destruct out; cbn [term_of Wp.wp out_post] in *; try exact W; contradiction.
+Qed.
+
 End Main.
 
 (* ---------------------------------------------------------------- exclusive holds stay exclusive (any scenario) *)
 Lemma rawwf_clear w : rawwf w -> rawwf (clear_trace w).
 Proof. apply rawwf_ext. intros; reflexivity. Qed.
 
-Lemma drain_calls_rawwf ra lr e t : forall rest loc w evs,
-  rawwf w -> rawwf (snd (fst (drain_calls ra lr e t loc rest w evs))).
+Lemma drain_calls_rawwf ra lr pb e t : forall rest loc w evs,
+  rawwf w -> rawwf (snd (fst (drain_calls ra lr pb e t loc rest w evs))).
 Proof.
   induction rest as [|o r IH]; intros loc w evs R; cbn [drain_calls]; [exact R|].
   destruct (api_prog e loc o) as [p|]; [|apply IH; exact R].
   pose proof (adv_rawwf ra lr t p (clear_trace w) (rawwf_clear _ R)) as D.
   destruct (adv ra lr t p (clear_trace w)) as [out w'|p' w']; [|exact D].
+  destruct pb; [exact D|].
   destruct (api_fin e loc o out) as [lc' rc]. destruct (stops rc); [exact D|]. apply IH. exact D.
 Qed.
 
-Lemma settle_rawwf ra lr e t o loc rest p w evs :
-  rawwf w -> rawwf (snd (fst (settle ra lr e t o loc rest p w evs))).
+Lemma settle_rawwf ra lr pbnow pb e t o loc rest p w evs :
+  rawwf w -> rawwf (snd (fst (settle ra lr pbnow pb e t o loc rest p w evs))).
 Proof.
   intros R. unfold settle.
   pose proof (adv_rawwf ra lr t p (clear_trace w) (rawwf_clear _ R)) as D.
   destruct (adv ra lr t p (clear_trace w)) as [out w'|p' w']; [|exact D].
+  destruct pbnow; [exact D|].
   destruct (api_fin e loc o out) as [lc' rc]. destruct (stops rc); [exact D|]. apply drain_calls_rawwf. exact D.
 Qed.
 
-Lemma turn_rawwf ra yr wpo e nl0 s t : rawwf (b_w s) -> rawwf (b_w (turn_g ra yr wpo e nl0 s t)).
+Lemma turn_rawwf ra yr pb wpo e nl0 s t : rawwf (b_w s) -> rawwf (b_w (turn_g ra yr pb wpo e nl0 s t)).
 Proof.
   intros R. unfold turn_g. destruct (negb (th_started (get_thr (b_thr s) t))).
-  - pose proof (drain_calls_rawwf ra false e t (th_rest (get_thr (b_thr s) t)) (th_loc (get_thr (b_thr s) t)) (b_w s) (b_evs s) R) as D.
-    destruct (drain_calls ra false e t (th_loc (get_thr (b_thr s) t)) (th_rest (get_thr (b_thr s) t)) (b_w s) (b_evs s)) as [[th' w'] evs'].
+  - pose proof (drain_calls_rawwf ra false pb e t (th_rest (get_thr (b_thr s) t)) (th_loc (get_thr (b_thr s) t)) (b_w s) (b_evs s) R) as D.
+    destruct (drain_calls ra false pb e t (th_loc (get_thr (b_thr s) t)) (th_rest (get_thr (b_thr s) t)) (b_w s) (b_evs s)) as [[th' w'] evs'].
     exact D.
   - destruct (th_cur (get_thr (b_thr s) t)) as [[o p]|]; [|exact R].
     pose proof (step_rawwf (pendw wpo (b_thr s) t) t p (clear_trace (b_w s)) (rawwf_clear _ R)) as D.
     destruct (step (pendw wpo (b_thr s) t) t p (clear_trace (b_w s))) as [v| | | |p' w1|w1]; try exact R.
     match goal with |- context [if ?c then _ else _] => destruct c end; [exact D|].
-    match goal with |- context [settle ?a ?b ?c ?d ?e0 ?f ?g ?h ?i ?j] =>
-      pose proof (settle_rawwf a b c d e0 f g h i j D) as X; destruct (settle a b c d e0 f g h i j) as [[th' w'] evs'] end.
+    match goal with |- context [settle ?a ?b ?b1 ?b2 ?c ?d ?e0 ?f ?g ?h ?i ?j] =>
+      pose proof (settle_rawwf a b b1 b2 c d e0 f g h i j D) as X; destruct (settle a b b1 b2 c d e0 f g h i j) as [[th' w'] evs'] end.
     exact X.
 Qed.
 
-Lemma run_sched_rawwf ra yr wpo e nl0 : forall sched s, rawwf (b_w s) -> rawwf (b_w (fst (run_sched_g ra yr wpo e nl0 s sched))).
+Lemma run_sched_rawwf ra yr pb wpo e nl0 : forall sched s, rawwf (b_w s) -> rawwf (b_w (fst (run_sched_g ra yr pb wpo e nl0 s sched))).
 Proof.
   induction sched as [|t r IH]; intros s R; cbn [run_sched_g].
   - cbn [fst]. destruct (note_waits_same wpo nl0 (seq 0 (length (b_thr s))) s) as [A _]. rewrite A. exact R.
@@ -560,9 +598,9 @@ Proof.
   apply Forall_forall. intros ops Ho. rewrite forallb_forall in H0. now apply H0.
 Qed.
 
-Lemma reach_GI_dec yr b sched : wfB_gen b = true ->
+Lemma reach_GI_dec yr pb b sched : wfB_gen b = true ->
   GI b blk_of (length (bs_progs b))
-     (fst (run_sched_g false yr (bs_wp b) (sc_env (bs_sc b)) (sc_nlocks (bs_sc b)) (binit b) sched)).
+     (fst (run_sched_g false yr pb (bs_wp b) (sc_env (bs_sc b)) (sc_nlocks (bs_sc b)) (binit b) sched)).
 Proof. intros W. destruct (wfB_parts b W) as [EO [PRE [F1 [FP CL]]]]. apply reach_GI; assumption. Qed.
 End Decide.
 
@@ -583,15 +621,15 @@ Definition wfB (b : bscen) : bool :=
 Lemma blk_rank nl rk o H l : blk_of (fun _ => rank_ok nl rk) o H l -> rank_ok nl rk H l.
 Proof. destruct o; cbn [blk_of]; tauto. Qed.
 
-Theorem every_schedule_stable_g yr b sched :
+Theorem every_schedule_stable_g yr pb b sched :
   wfB b = true ->
   let sc := bs_sc b in
   stable_state (sc_nlocks sc) (bs_wp b) (rk_of sc) (bound_of sc)
-               (fst (run_sched_g false yr (bs_wp b) (sc_env sc) (sc_nlocks sc) (binit b) sched)).
+               (fst (run_sched_g false yr pb (bs_wp b) (sc_env sc) (sc_nlocks sc) (binit b) sched)).
 Proof.
   intros W sc.
   pose proof (reach_GI_dec (fun _ => rank_ok (sc_nlocks sc) (rk_of sc)) (fun _ => rank_okb (sc_nlocks sc) (rk_of sc))
-                           (fun _ H l => rank_okb_ok _ _ H l) yr b sched W) as G.
+                           (fun _ H l => rank_okb_ok _ _ H l) yr pb b sched W) as G.
   eapply GI_stable; [|exact G]. intros o H l. apply blk_rank.
 Qed.
 
@@ -600,7 +638,7 @@ Theorem every_schedule_stable_dec b sched :
   let sc := bs_sc b in
   stable_state (sc_nlocks sc) (bs_wp b) (rk_of sc) (bound_of sc)
                (fst (run_sched (bs_wp b) (sc_env sc) (sc_nlocks sc) (binit b) sched)).
-Proof. exact (every_schedule_stable_g false b sched). Qed.
+Proof. exact (every_schedule_stable_g false false b sched). Qed.
 
 (* no schedule leads the model into a deadlock *)
 Theorem every_schedule_deadlock_free b sched :
@@ -629,12 +667,12 @@ Theorem model_never_reports_deadlock b sched :
   let st := bo_status (model_bobs b sched) in st <> BDeadlock /\ st <> BSelfWait.
 Proof.
   intros W. unfold model_bobs, model_bobs_g.
-  assert (D : let s := fst (run_sched_g false (bs_yr b) (bs_wp b) (sc_env (bs_sc b)) (sc_nlocks (bs_sc b)) (binit b) sched) in
+  assert (D : let s := fst (run_sched_g false (bs_yr b) false (bs_wp b) (sc_env (bs_sc b)) (sc_nlocks (bs_sc b)) (binit b) sched) in
               (exists t, live s t) -> exists t', enabled (bs_wp b) s t' = true).
   { intros s. apply (no_deadlock (sc_nlocks (bs_sc b)) (bs_wp b) (rk_of (bs_sc b)) (bound_of (bs_sc b)) s).
     apply every_schedule_stable_g. exact W. }
   cbn zeta in D.
-  destruct (run_sched_g false (bs_yr b) (bs_wp b) (sc_env (bs_sc b)) (sc_nlocks (bs_sc b)) (binit b) sched) as [s ok] eqn:R.
+  destruct (run_sched_g false (bs_yr b) false (bs_wp b) (sc_env (bs_sc b)) (sc_nlocks (bs_sc b)) (binit b) sched) as [s ok] eqn:R.
   cbn [fst] in D. cbn [bo_status]. unfold status_of.
   destruct (negb ok); [split; discriminate|].
   destruct (all_over s) eqn:AO; [split; discriminate|].
@@ -665,7 +703,7 @@ Theorem every_schedule_data_under_hold b sched t pos l :
 Proof.
   intros W sc s. eapply GI_data.
   apply (reach_GI_dec (fun _ => rank_ok (sc_nlocks sc) (rk_of sc)) (fun _ => rank_okb (sc_nlocks sc) (rk_of sc))
-                      (fun _ H l => rank_okb_ok _ _ H l) false b sched W).
+                      (fun _ H l => rank_okb_ok _ _ H l) false false b sched W).
 Qed.
 
 (* two threads are never at conflicting accesses of the same lock's data *)
@@ -726,5 +764,60 @@ Theorem every_schedule_release_held b sched t k l :
 Proof.
   intros W sc s. eapply GI_release.
   apply (reach_GI_dec (fun _ => rank_ok (sc_nlocks sc) (rk_of sc)) (fun _ => rank_okb (sc_nlocks sc) (rk_of sc))
-                      (fun _ H l => rank_okb_ok _ _ H l) false b sched W).
+                      (fun _ H l => rank_okb_ok _ _ H l) false false b sched W).
+Qed.
+
+(* ---------------------------------------------------------------- what a thread holds between two calls (C03, C04, C11) *)
+(* the model with pauses at call boundaries: every schedule, every thread whose call has run to its end *)
+Theorem every_schedule_call_boundary b sched t o k out :
+  wfB b = true ->
+  let sc := bs_sc b in
+  let s := fst (run_sched_g false false true (bs_wp b) (sc_env sc) (sc_nlocks sc) (binit b) sched) in
+  let th := get_thr (b_thr s) t in
+  th_over th = false -> th_cur th = Some (o, Op bpause_op k) -> k (VBool false) = term_of out ->
+  (match out with ODone _ | OPanic => True | _ => False end) ->
+  exists H K, agree t (b_w s) H K /\ TBfin (api_fin (sc_env sc) (th_loc th) o out) H K.
+Proof.
+  intros W sc s th OV CU KE OK.
+  pose proof (reach_GI_dec (fun _ => rank_ok (sc_nlocks sc) (rk_of sc)) (fun _ => rank_okb (sc_nlocks sc) (rk_of sc))
+                           (fun _ H l => rank_okb_ok _ _ H l) false true b sched W) as G.
+  destruct (GI_boundary b _ _ _ t o k out G OV CU KE) as [H [K [A P]]].
+  exists H, K. split; [exact A|]. destruct out; try contradiction; exact P.
+Qed.
+
+(* C03 / C11: when the call hands the key back without a guard — guard dropped or unlocked, scoped call returned or
+   unwound, failed try, user panic with a live guard — the thread holds nothing *)
+Theorem every_schedule_key_back_holds_nothing b sched t o k out l :
+  wfB b = true ->
+  let sc := bs_sc b in
+  let s := fst (run_sched_g false false true (bs_wp b) (sc_env sc) (sc_nlocks sc) (binit b) sched) in
+  let th := get_thr (b_thr s) t in
+  th_over th = false -> th_cur th = Some (o, Op bpause_op k) -> k (VBool false) = term_of out ->
+  (match out with ODone _ | OPanic => True | _ => False end) ->
+  guard (fst (api_fin (sc_env sc) (th_loc th) o out)) = None ->
+  holds_b (b_w s) t l = false.
+Proof.
+  intros W sc s th OV CU KE OK GN.
+  destruct (every_schedule_call_boundary b sched t o k out W OV CU KE OK) as [H [K [A [T _]]]].
+  fold sc in T. fold s in T. fold th in T. unfold TB in T. rewrite GN in T. destruct T as [-> _].
+  destruct (agree_nil_noholds b _ _ _ l A) as [N1 N2]. unfold holds_b. subst s sc. rewrite N1, N2. reflexivity.
+Qed.
+
+(* C04: a guard is returned only with exactly the leaves of the collection held, each as often as it is a leaf, in the
+   requested mode *)
+Theorem every_schedule_guard_holds_exactly b sched t c m f k v s0 :
+  wfB b = true ->
+  let sc := bs_sc b in
+  let s := fst (run_sched_g false false true (bs_wp b) (sc_env sc) (sc_nlocks sc) (binit b) sched) in
+  let th := get_thr (b_thr s) t in
+  th_over th = false -> th_cur th = Some (AAcquire c m f, Op bpause_op k) -> k (VBool false) = Ret v ->
+  (f = FGuard \/ f = FTry) -> v <> VNat 1 -> coll (sc_env sc) c = Some s0 ->
+  exists H K, agree t (b_w s) H K /\ Permutation H (holds_of m (gleaves (gitems s0))).
+Proof.
+  intros W sc s th OV CU KE FF V1 EC.
+  destruct (every_schedule_call_boundary b sched t (AAcquire c m f) k (ODone v) W OV CU KE I) as [H [K [A [T _]]]].
+  exists H, K. split; [exact A|]. fold sc in T. fold s in T. fold th in T.
+  assert (G : guard (fst (api_fin (sc_env sc) (th_loc th) (AAcquire c m f) (ODone v))) = Some (mkg m (gitems s0))).
+  { cbn [api_fin]. rewrite EC. destruct FF as [-> | ->]; destruct v as [|bb|[|[|n]]]; cbn [fst guard]; try reflexivity; now contradiction V1. }
+  unfold TB in T. rewrite G in T. destruct T as [P _]. exact P.
 Qed.
